@@ -810,17 +810,23 @@ func (s String) Join(args Tuple) (Object, error) {
 	if err != nil {
 		return nil, err
 	}
+	// The iterable is read to its end first (an exception of its own
+	// wins), then the items are looked at
+	var items []Object
 	item, err := Next(iterable)
 	for err == nil {
+		items = append(items, item)
+		item, err = Next(iterable)
+	}
+	if !IsException(StopIteration, err) {
+		return nil, err
+	}
+	for _, item := range items {
 		str, ok := item.(String)
 		if !ok {
 			return nil, ExceptionNewf(TypeError, "sequence item %d: expected str instance, %s found", len(parts), item.Type().Name)
 		}
 		parts = append(parts, string(str))
-		item, err = Next(iterable)
-	}
-	if !IsException(StopIteration, err) {
-		return nil, err
 	}
 	return String(strings.Join(parts, string(s))), nil
 }
